@@ -18,6 +18,9 @@ def oracle_req(case, reply):
     w = case.split()
     if w[0] == "ll":
         return "ll-tables-ok " + " ".join(w[1:4])
+    if w[0] == "lr" and len(w) >= 14:
+        # hypothesis of lr_no_internal, evaluated on the real table
+        return "lr-table-complete " + " ".join(w[1:4]) + " " + w[13]
     return None
 
 
@@ -122,6 +125,7 @@ SPEC = {
     "prop": "prun",
     "gen_extra": ["junk"],
     "mod": "ParolModel.Props.C19",
+    "more_mods": ["ParolModel.Props.C19b"],
     "files": FILES,
     "oracle_req": oracle_req,
     "nontrivial": nontrivial,
@@ -132,18 +136,18 @@ SPEC = {
             "trim and depth limits cycled; non-trivial = non-empty token sequence; distinct = distinct request lines; plus the watchdog runs on "
             "cyclic LALR(1) grammars (coverage.cyclic_grammar_runs)",
     "assumptions": [
-        "ll_no_internal is about the model `llRun` (C01's tie); the checker tablesInRangeB is evaluated on every real LL table",
-        "termination, the LR parser's index safety and the recovery machinery are NOT proved; they are explored only (catch_unwind, watchdog)",
+        "ll_no_internal / lr_no_internal are about the models `llRun` / `lrRun` (ties of C01 / C03); their hypotheses, the checkers tablesInRangeB and lrTableComplete, are evaluated by Lean on every real LL / LALR(1) table explored",
+        "termination (LL: LLTerminates, LR: finding F24 shows it is false for cyclic grammars) and the recovery machinery are NOT proved; they are explored only (catch_unwind, watchdog)",
         "stack exhaustion, allocation failure and real time are runtime behaviour the model cannot exhibit",
     ],
 }
 
 CLAIM = {
     "category": "proof",
-    "text": "Theorem ll_no_internal: for every LL table set accepted by the verified checker tablesInRangeB (start, left-hand sides, non-terminals and predictable productions in range; no end-of-production marker or T(0) inside a right-hand side; sorted automata; an accepting start state has no transitions) and EVERY input and option record, the model of LLKParser::parse_into never reaches an internal outcome — no index out of range, no parse-tree-stack underflow in process_item_stack (stack discipline invariant StackOK), no failing debug assertion in eval. The checker is evaluated on every real table. PARTIAL: termination, LR index safety and recovery are not theorems; they are explored — both real parsers on garbled inputs with recovery on and off under catch_unwind (no panic, no internal/data/lexer error), and a per-process watchdog on cyclic LALR(1) grammars.",
+    "text": "Theorem ll_no_internal: for every LL table set accepted by the verified checker tablesInRangeB (start, left-hand sides, non-terminals and predictable productions in range; no end-of-production marker or T(0) inside a right-hand side; sorted automata; an accepting start state has no transitions) and EVERY input and option record, the model of LLKParser::parse_into never reaches an internal outcome — no index out of range, no parse-tree-stack underflow in process_item_stack (stack discipline invariant StackOK), no failing debug assertion in eval. The checker is evaluated on every real table. Theorem lr_no_internal (Props/C19b): the same for the LR parser model under the verified checker lrTableComplete (lrTableValid + all shift/goto targets in range + a goto on the left-hand side exists wherever a reduction can land), also evaluated on every real LALR(1) table. PARTIAL: termination and recovery are not theorems; they are explored — both real parsers on garbled inputs with recovery on and off under catch_unwind (no panic, no internal/data/lexer error), and a per-process watchdog on cyclic LALR(1) grammars.",
     "design_ref": "DESIGN.md §6 C19",
-    "note": "Partial claim: proof for LL index safety only. Known finding F24 (LR parser does not terminate on cyclic grammars accepted with resolved conflicts) is reproduced by the watchdog and reported as KNOWN-FINDING. Trusted: Lean kernel; faithfulness of the model as observed; harness, watchdog limits (4 s, 3 GB).",
-    "technique": "Lean 4 proof (LL index safety) over hand-written model + differential correspondence check on garbled inputs + watchdog exploration",
+    "note": "Partial claim: proofs for LL and LR index/stack safety, not for termination. Known finding F24 (LR parser does not terminate on cyclic grammars accepted with resolved conflicts) is reproduced by the watchdog and reported as KNOWN-FINDING. Trusted: Lean kernel; faithfulness of the model as observed; harness, watchdog limits (4 s, 3 GB).",
+    "technique": "Lean 4 proof (LL and LR index safety) over hand-written model + differential correspondence check on garbled inputs + watchdog exploration",
 }
 
 
